@@ -273,3 +273,73 @@ def solo_case(case, i):
         else:
             out.append(l)
     return "\n".join(out)
+
+
+# ---------------------------------------------------------------------------------------------
+# Error paths of export-like / configuration calls in every lifecycle state (kind indep-faulty, same checks)
+
+ERR_ANY = ["shmemlen", "shmemwrite", "exportxml", "exportxmlbuf", "exportsynth", "dup", "diffbuild", "diffapply",
+           "restrict", "allow", "insertmisc", "distadd", "distget", "refresh"]
+ERR_LOADED = ["setsynthetic", "setxml", "setflags", "setfilter", "setpid", "setcomponents"]
+
+
+def error_round(rng, t, docs):
+    """one topology taken through init only / configured / failed load / loaded, with error-path calls in each state"""
+    L = ["init %d" % t]
+    for _ in range(rng.randrange(0, 3)):
+        L.append("err %d %s" % (t, rng.choice(ERR_ANY)))
+    if rng.random() < 0.5:
+        L.append("configure %d synthetic %s" % (t, rng.choice(SYNTH)))
+        for _ in range(rng.randrange(1, 3)):
+            L.append("err %d %s" % (t, rng.choice(ERR_ANY)))
+    if rng.random() < 0.4:
+        L.append("load %d 0 bind=0 synthetic %s" % (t, rng.choice(BAD_SYNTH)) if rng.random() < 0.5 else
+                 "load %d 0 bind=0 xmlbuf %s" % (t, docs[rng.choice(sorted(docs))][rng.choice(BAD_DOCS)]))
+        for _ in range(rng.randrange(1, 3)):
+            L.append("err %d %s" % (t, rng.choice(ERR_ANY)))
+    if rng.random() < 0.7:
+        L.append("load %d 0 bind=0 synthetic %s" % (t, rng.choice(SYNTH)) if rng.random() < 0.6 else
+                 "load %d 0 bind=0 xml %s" % (t, docs[rng.choice(sorted(docs))]["plain"]))
+        for _ in range(rng.randrange(1, 4)):
+            L.append("err %d %s" % (t, rng.choice(ERR_LOADED + ERR_ANY)))
+        L.append(cons_op(rng, t))
+        L.append("cons %d exportxml" % t)
+    L.append("destroy %d" % t)
+    return L
+
+
+def indep_errors(rng, repo, docs, T, lockstep):
+    """lockstep: a deterministic interleaving - the calls of all threads are totally ordered by barriers
+    (one call, then everybody meets), in an order drawn from rng"""
+    keep63 = rng.random() < 0.5
+    L = ["# kind: indep-faulty",
+         "init 63", "load 63 0 bind=0 xml " + docs[sorted(docs)[0]]["plain"], "cons 63 exportxml",
+         "init 62", "load 62 0 bind=0 xml /nonexistent/file.xml", "destroy 62"]
+    if not keep63:
+        L.append("destroy 63")      # the threads' topologies are then the only ones: the components count can reach 0 inside the section
+    progs = []
+    for i in range(T):
+        p = []
+        for _ in range(rng.randrange(1, 4)):
+            p += error_round(rng, i, docs)
+        progs.append(p)
+    L.append("threads %d" % T)
+    if lockstep:
+        pos = [0] * T
+        out = [[] for _ in range(T)]
+        while any(pos[i] < len(progs[i]) for i in range(T)):
+            u = rng.choice([i for i in range(T) if pos[i] < len(progs[i])])
+            out[u].append(progs[u][pos[u]])
+            pos[u] += 1
+            for i in range(T):
+                out[i].append("barrier")
+        progs = out
+    for i in range(T):
+        for l in progs[i]:
+            L.append("prog %d %s" % (i, l))
+    L.append("run noref")
+    # the process-wide component registry must still work: a fresh topology loads and exports, the survivor exports
+    L += ["init 60", "load 60 0 bind=0 synthetic pack:2 numa:1 core:2 pu:2", "cons 60 exportxml", "cons 60 traverse", "destroy 60"]
+    if keep63:
+        L += ["cons 63 exportxml", "destroy 63"]
+    return "\n".join(L) + "\n"
